@@ -63,7 +63,12 @@ Inductive opcall :=
 | OStoreGet (s : nat) (id : ustring)
 | OSetattr (a : nat) (name : ustring)
 | ODelattr (a : nat) (name : ustring)
-| OSetitem (a : nat).
+| OSetitem (a : nat)
+| OGranularRemove (a m s : nat)
+| OGranularSet (a m s : nat)
+| OObjectSet (a m : nat)
+| OApi (fn : api_fn) (a : nat) (m s : option nat)
+| ORemoveCustom (a : nat).
 
 Section Run.
   Variable vt : variant.
@@ -120,6 +125,13 @@ Section Run.
     | OSetattr a name => py_setattr (env_get e a) name (VA (AStr (u "changed"))) h
     | ODelattr a name => py_delattr (env_get e a) name h
     | OSetitem a => py_setitem_obj (env_get e a) h
+    | OGranularRemove a m s => granular_remove vt W (env_get e a) (env_get e m) (env_get e s) h
+    | OGranularSet a m s => granular_set vt W (env_get e a) (env_get e m) (env_get e s) h
+    | OObjectSet a m => object_set vt W (env_get e a) (env_get e m) h
+    | OApi fn a m s =>
+        api_markings vt W fn (env_get e a) (match m with Some i => env_get e i | None => VA ANone end)
+                     (match s with Some i => env_get e i | None => VA ANone end) h
+    | ORemoveCustom a => remove_custom_stix vt W (env_get e a) h
     end.
 
   (* ---- canonical names of containers: smallest env index, smallest path ---- *)
@@ -174,6 +186,14 @@ Section Run.
     | OSetattr _ name => negb (setattr_allowed name)
     | ODelattr _ _ => false
     | _ => true
+    end.
+
+  (* ... and, on heaps whose objects have only private attributes (every heap the
+     library builds), deletion of public names as well *)
+  Definition public_op_d (o : opcall) : bool :=
+    match o with
+    | ODelattr _ name => negb (setattr_allowed name)
+    | _ => public_op o
     end.
 
   (* the state after a sequence of operations (the same threading as run_ops below) *)
